@@ -53,11 +53,15 @@ MIR_KINDS = {
 }
 
 
+def mir_target_dir(kind):
+    return os.path.join(BUILD, 'mir-' + kind + ('' if REPO == '/repo' else '-' + re.sub(r'[^A-Za-z0-9]+', '_', REPO).strip('_')))
+
+
 def dump_mir(kind):
     """(re)build the crates with --emit=mir from /repo's current working tree.
     returns (deps directory, path of the -Zprint-type-sizes text, wall seconds)"""
     k = MIR_KINDS[kind]
-    tdir = os.path.join(BUILD, 'mir-' + kind)
+    tdir = mir_target_dir(kind)
     os.makedirs(tdir, exist_ok=True)
     ts_file = os.path.join(tdir, 'type-sizes.txt')
     rustflags = '--emit=mir,link %s -Zprint-type-sizes' % k['flags']
@@ -159,7 +163,7 @@ def parse_layouts(ts_file, struct_fields=None):
 def prepare_shim_workspace():
     """scratch workspace whose only purpose is to build clock-bound-d's library with the empty-bodied
     tracing shims patched in (DESIGN.md 2.3)."""
-    ws = os.path.join(BUILD, 'ws-dlib')
+    ws = os.path.join(BUILD, 'ws-dlib' + ('' if REPO == '/repo' else '-' + re.sub(r'[^A-Za-z0-9]+', '_', REPO).strip('_')))
     os.makedirs(os.path.join(ws, 'src'), exist_ok=True)
     toml = '''[package]
 name = "verif-dlib"
@@ -200,9 +204,20 @@ _replay_built = {}
 def build_replay(profile='debug'):
     if profile in _replay_built:
         return _replay_built[profile]
+    src = os.path.join(VERIF, 'replay')
     tdir = os.path.join(BUILD, 'replay')
+    if REPO != '/repo':
+        # a copy of the harness whose path dependencies point at the alternative repository (self-test runs on scratch copies)
+        import shutil
+        tag = re.sub(r'[^A-Za-z0-9]+', '_', REPO).strip('_')
+        src2 = os.path.join(BUILD, 'replay-src-' + tag)
+        os.makedirs(os.path.join(src2, 'src'), exist_ok=True)
+        for rel in ['Cargo.toml', 'Cargo.lock'] + ['src/' + f for f in os.listdir(os.path.join(src, 'src'))]:
+            txt = open(os.path.join(src, rel)).read().replace('"/repo/', '"%s/' % REPO)
+            _write_if_changed(os.path.join(src2, rel), txt)
+        src = src2; tdir = os.path.join(BUILD, 'replay-' + tag)
     cmd = ['cargo', 'build', '--offline'] + (['--release'] if profile == 'release' else [])
-    run(cmd, env={'CARGO_TARGET_DIR': tdir, 'RUSTFLAGS': '--cfg aws_clock_bound_verif'}, cwd=os.path.join(VERIF, 'replay'), timeout=1800)
+    run(cmd, env={'CARGO_TARGET_DIR': tdir, 'RUSTFLAGS': '--cfg aws_clock_bound_verif'}, cwd=src, timeout=1800)
     b = os.path.join(tdir, profile, 'verif-replay')
     _replay_built[profile] = b
     return b
@@ -250,8 +265,10 @@ class Prover:
         self.time = 0.0
         self.samples = []
         self.names = set()
-        self.smt2 = []            # (name, smt2 text) for the cvc5 cross-check
-        self.keep_smt2 = False
+        self.cross_every = int(os.environ.get('VERIF_CROSS_EVERY', '0') or 0)      # thorough tier: re-decide every k-th proved obligation with cvc5
+        self.cross_checked = 0
+        self.cross_disagree = []
+        self._nproved = 0
 
     def add(self, *facts):
         for f in facts:
@@ -274,13 +291,37 @@ class Prover:
                 self.s.add(*extra)
             r = self.s.check()
             m = self.s.model() if r == z3.sat else None
-            if self.keep_smt2:
-                self._last_smt2 = self.s.to_smt2()
+            if r == z3.unsat and self.cross_every and extra:
+                self._nproved += 1
+                if self._nproved % self.cross_every == 1 or self.cross_every == 1:
+                    self._cross_check(self.s.to_smt2())
         finally:
             self.s.pop()
         dt = time.time() - t0
         self.time += dt; self.queries += 1
         return r, m, dt
+
+    def _cross_check(self, smt2):
+        """second opinion (cvc5) on a query z3 found unsatisfiable; any other answer is recorded as a disagreement"""
+        if self.cross_checked >= 60:
+            return
+        d = os.path.join(BUILD, 'smt2'); os.makedirs(d, exist_ok=True)
+        f = os.path.join(d, 'q%d_%d.smt2' % (os.getpid(), self.cross_checked))
+        txt = smt2 if '(set-logic' in smt2 else '(set-logic ALL)\n' + smt2
+        open(f, 'w').write(txt)
+        try:
+            p = subprocess.run(['cvc5', '--lang', 'smt2', '--tlimit=30000', f], capture_output=True, text=True, timeout=60)
+            out = (p.stdout + p.stderr).strip()
+        except subprocess.TimeoutExpired:
+            out = 'timeout'
+        self.cross_checked += 1
+        first = out.split('\n')[0] if out else ''
+        if first != 'unsat':
+            self.cross_disagree.append(first[:80] or 'no answer')
+        try:
+            os.remove(f)
+        except OSError:
+            pass
 
     def prove(self, name, pc, claim, need_reach=True):
         """claim must hold on every input satisfying pc (and the base assumptions).
@@ -401,6 +442,15 @@ class Check:
             self.inconclusive.append('solver unknown on ' + prefix + n)
         # an obligation with a counterexample is never a pass: unless the check turned it into a replayed violation,
         # it is reported as inconclusive
+        if pr.cross_checked:
+            c['cvc5_cross_checked'] = c.get('cvc5_cross_checked', 0) + pr.cross_checked
+            bad = [x for x in pr.cross_disagree if x.startswith('sat')]
+            soft = [x for x in pr.cross_disagree if not x.startswith('sat')]
+            c['cvc5_disagreements'] = c.get('cvc5_disagreements', 0) + len(bad)
+            if soft:
+                c['cvc5_inconclusive'] = c.get('cvc5_inconclusive', []) + soft[:5]
+            for x in bad:
+                self.inconclusive.append('cvc5 finds a model for a query z3 reported unsatisfiable (' + prefix + ')')
         handled = getattr(pr, 'handled', set())
         for n, m in pr.failed:
             if n not in handled:
